@@ -11,10 +11,11 @@ two) through a fakesnow cursor, and compares, against the reference semantics in
   C12.rowcount         cursor.rowcount == sum of the counts
   C12.atomic           if MERGE raises, the target equals its pre-state; a MERGE inside BEGIN..ROLLBACK leaves nothing,
                        inside BEGIN..COMMIT everything; no transaction is left open by the statement
-  C12.helper           afterwards the session owns no helper object: no temporary table that was not there before
-                       (ground truth), `merge_candidates` resolves to nothing, SHOW TABLES / SHOW OBJECTS /
+  C12.helper           afterwards the session owns no helper object: no temporary table or view (ground truth: the
+                       harness creates none), `merge_candidates` resolves to nothing, SHOW TABLES / SHOW OBJECTS /
                        information_schema.tables do not list it
-  C12.helper_user_table  a user table named merge_candidates is neither shadowed nor modified
+  C12.helper_user_table  a user table named merge_candidates is neither shadowed nor modified (rows, and the comment /
+                       VARCHAR length recorded for it in fakesnow's side tables, i.e. what information_schema reports)
 
 Domain (explicit alphabets below): deterministic merges only -- source keys are distinct, so no target row joins
 two source rows; clause lists are the valid Snowflake ones (an unconditional clause is the last of its kind; NOT
@@ -25,8 +26,11 @@ of a failing MERGE (C07); behaviour of nondeterministic merges, of clause lists 
 inside an explicit transaction; row order of the target.
 
 Violation classes name the input shape (spelling / clause forms / data shape decided by the REFERENCE), never
-fakesnow internals. A wrong target is labelled `effect=clausewise_rejoin_on_key` only when it equals what the named
-alternative semantics merge_ref.merge_clausewise_rejoin predicts; anything else is `unexplained:*` (never listed).
+fakesnow internals: `shape_cause` (spellings and expression forms the statement is refused for), `bare_or_leak`
+(where reading `AND a OR b` as `(.. AND a) OR b` differs from the reference). A wrong target is labelled
+`effect=clausewise_rejoin_on_key` only when it equals what the named alternative semantics
+merge_ref.merge_clausewise_rejoin predicts; anything else is `unexplained:*` (never listed). Every class records its
+members (acc.member), so a listed class that stops being homogeneous shows up in the evidence.
 """
 from __future__ import annotations
 
@@ -48,7 +52,8 @@ TVALS = ("a", "b", None)  # v of the 1st / 2nd / 3rd target row
 SRC = {1: (1, "S1", 1), 2: (2, "S2", 0), 3: (3, "S3", None), None: (None, "SN", 1)}  # key 3 never joins
 SKEYS = (1, 2, 3, None)
 BYST = [(9, "keep"), (None, None)]
-USER_MC = [(42,)]
+USER_MC = [("42",)]  # user table merge_candidates (x varchar(10)) comment = 'mine'
+SIDE = "select * from db1.information_schema.{} order by all"
 
 ALL_TARGETS = [c for n in range(0, 4) for c in itertools.combinations_with_replacement(range(3), n)]  # 20 key multisets
 ALL_SOURCES = [c for n in range(0, 4) for c in itertools.combinations(range(4), n)]  # 15 key sets
@@ -464,10 +469,13 @@ def _others(raw):
         ),
         "source": tuple(_norm(raw.execute("select * from db1.s1.s").fetchall())),
         "bystander": tuple(_norm(raw.execute("select * from db1.s1.b").fetchall())),
+        # fakesnow's own record of comments / VARCHAR lengths (what information_schema reports)
+        "side_tables": tuple(raw.execute(SIDE.format("_fs_tables_ext")).fetchall())
+        + tuple(raw.execute(SIDE.format("_fs_columns_ext")).fetchall()),
     }
 
 
-def _reset(raw, sess, tname, trows, srows, user_mc):
+def _reset(conn, raw, sess, tname, trows, srows, user_mc):
     # leftovers of an earlier case (only possible after a violation): transaction, temp objects, user table
     try:
         sess.execute("ROLLBACK")
@@ -476,6 +484,8 @@ def _reset(raw, sess, tname, trows, srows, user_mc):
     for (n,) in sess.execute("select table_name from duckdb_tables() where temporary").fetchall():
         sess.execute(f'drop table temp.main."{n}"')
     raw.execute("drop table if exists db1.s1.MERGE_CANDIDATES")
+    for side in ("_fs_tables_ext", "_fs_columns_ext"):
+        raw.execute(f"delete from db1.information_schema.{side} where ext_table_name = 'MERGE_CANDIDATES'")
     for tn in ("t", "t3"):
         raw.execute(f"delete from db1.s1.{tn}")
     raw.execute("delete from db1.s1.s")
@@ -484,7 +494,8 @@ def _reset(raw, sess, tname, trows, srows, user_mc):
     if srows:
         raw.execute("insert into db1.s1.s values " + _vals(srows))
     if user_mc:
-        raw.execute("create table db1.s1.MERGE_CANDIDATES (X int)")
+        # through fakesnow, so that the table has a recorded comment and VARCHAR length like any user table
+        conn.cursor().execute("create table merge_candidates (x varchar(10)) comment = 'mine'")
         raw.execute("insert into db1.s1.MERGE_CANDIDATES values " + _vals(USER_MC))
 
 
@@ -540,6 +551,7 @@ def execute_step(scenario, tname, sql):
         o["show_objects"] = _lists_helper(_fs(cur, "show objects"), 1)
         o["info_tables"] = _lists_helper(_fs(cur, "select table_name from information_schema.tables"), 0)
     if scenario == "usertable":
+        o["side_after"] = [r for r in _others(raw)["side_tables"] if "MERGE_CANDIDATES" in r]
         o["user_seen"] = _fs(cur, "select * from merge_candidates")
         o["user_raw"] = _norm(raw.execute("select * from db1.s1.MERGE_CANDIDATES").fetchall())
     return o
@@ -654,6 +666,8 @@ def judge(scenario, tname, spec, spelling, srows, o):
 
     # -- C12.touches_nothing_else
     for what, same in sorted(o["others_same"].items()):
+        if what == "side_tables" and scenario == "usertable":
+            continue  # judged below as part of C12.helper_user_table
         if not same:
             viol.append(("C12.touches_nothing_else", f"changed={what},after={got[0]}", {"got": got}))
 
@@ -720,6 +734,11 @@ def judge(scenario, tname, spec, spelling, srows, o):
             viol.append(("C12.helper_user_table", f"shadowed,{stage}", {"select * from merge_candidates": o["user_seen"]}))
         if o["user_raw"] != _norm(USER_MC):
             viol.append(("C12.helper_user_table", f"modified,{stage}", {"got": o["user_raw"]}))
+        lost = not o["others_same"]["side_tables"]
+        if counted:
+            memb.append(("C12.helper_user_table", f"comment_and_lengths_lost,{stage}", lost))
+        if lost:
+            viol.append(("C12.helper_user_table", f"comment_and_lengths_lost,{stage}", {"user table": "merge_candidates (x varchar(10)) comment = 'mine'", "side tables": o["side_after"]}))
     return viol, memb, ref
 
 
@@ -733,7 +752,7 @@ def case(item, acc: core.Acc, tier):
     tname = "t3" if scenario == "notnull" else "t"
     conn, raw, sess = _env()
     trows, srows = target_rows(tk, three=tname == "t3"), source_rows(sk)
-    _reset(raw, sess, tname, trows, srows, scenario == "usertable")
+    _reset(conn, raw, sess, tname, trows, srows, scenario == "usertable")
     out = []
     for si, (spec, spelling) in enumerate(steps):
         sql = render(spec, spelling, tname)
@@ -762,15 +781,17 @@ def run(ctx: core.Ctx):
     tier = ctx.tier
     cases = enumerate_cases(tier)
     ctx.rule = (
-        "finite product, every element executed on the real code: target key multisets (<=3 rows over keys {1,2,NULL}, "
-        "v = 'a','b',NULL by position) x source key sets (<=3 rows over distinct keys {1,2,3,NULL}) x valid clause "
-        "lists (<=3 clauses over MATCHED->UPDATE/DELETE, MATCHED AND c->UPDATE/DELETE, NOT MATCHED [AND c]->INSERT; "
-        "c on source / target / both; the three conditions assigned injectively to the conditional MATCHED clauses) in "
-        "the plain spelling; + spellings x kind lists x 4 contents; + SET forms x INSERT forms x contents; + NOT NULL "
-        "target (statement must fail as a whole); + follow-up observations of the session (helper table, user table of "
-        "the same name); + MERGE inside BEGIN..ROLLBACK/COMMIT; + two merges in one session. quick = 16 contents, "
-        "rotating conditions, 14 spellings. non-trivial = (pre-state, source, clauses, spelling) for which the "
-        "reference affects >= 1 row or demands an error"
+        "finite product, every element executed on the real code. A (semantics, plain spelling): all 20 target key "
+        "multisets (<=3 rows over keys {1,2,NULL}, v = 'a','b',NULL by position) x all 15 source key sets (<=3 rows over "
+        "distinct keys {1,2,3,NULL}) x valid clause lists over MATCHED->UPDATE/DELETE, MATCHED AND c->UPDATE/DELETE, "
+        "NOT MATCHED [AND c]->INSERT with c on source / target / both: every list of <=2 clauses with the three "
+        "conditions assigned injectively, every 3-clause kind list with rotating conditions; every 3-clause list with "
+        "injective conditions x 16 contents. B: every spelling x every kind list x 3 contents. C: SET forms x INSERT "
+        "forms x 100 contents (+ x spellings). D: NOT NULL target column (statement must fail as a whole) x all contents. "
+        "E: follow-up observations of the session (helper table; user table of the same name) x spellings. F: MERGE "
+        "inside BEGIN..ROLLBACK/COMMIT. G: two merges in one session. H: conditions `a OR b` without parentheses x all "
+        "contents. quick = 16 contents, rotating conditions, 14 spellings, reduced B-H. non-trivial = distinct "
+        "(scenario, pre-state, source, clauses, spelling) for which the reference affects >= 1 row or demands an error"
     )
     ctx.assumptions = [
         "contents are set through raw DuckDB, the target is read back through raw DuckDB on another connection",
